@@ -48,6 +48,8 @@ def rng(prog, an=None, files=None, table=None):
     summ = ps.summaries(prog, files)
     obs = []
     stats = {'functions': 0, 'mask_sites': 0, 'untainted_masks': 0, 'fields': 0}
+    uncut = []
+    stats['uncut_sites'] = uncut
     table = table or {}
     for fn in sorted(prog.fns.values(), key=lambda f: (f.file, f.line)):
         if fn.file not in files or not fn.blocks:
@@ -74,19 +76,16 @@ def rng(prog, an=None, files=None, table=None):
         ft0 = ps.FlowTaint(fn, fi)
         tags = ps.tag_taint(fn, ft0)
         ft = ps.FlowTaint(fn, fi, tags)
-        # locals that are a plain copy of one operand's value (`b = operands[1].value;`, assigned once)
+        # locals that are a plain copy of one operand's value (`b = operands[1].value;`): per store site
         copies = {}
-        cnt_ = {}
         for kk, rhs, stn, b in fi.assigns:
-            cnt_[kk] = cnt_.get(kk, 0) + 1
-        for kk, rhs, stn, b in fi.assigns:
-            if kk.startswith('V:') and cnt_[kk] == 1 and rhs is not None:
+            if kk.startswith('V:') and rhs is not None:
                 r_ = strip(rhs, casts=True)
-                if r_['k'] == 'MemberExpr' and r_.get('n') == 'value':
-                    try:
-                        copies[int(kk[2:])] = show(kids(r_)[0])
-                    except ValueError:
-                        pass
+                base_ = show(kids(r_)[0]) if (r_['k'] == 'MemberExpr' and r_.get('n') == 'value') else None
+                try:
+                    copies.setdefault(int(kk[2:]), []).append((b, base_))
+                except ValueError:
+                    pass
         # keys that hold an assembled word (operand OR-ed with other fields), not an operand value
         mixed = set()
         for kk, rhs, stn, b in fi.assigns:
@@ -97,6 +96,7 @@ def rng(prog, an=None, files=None, table=None):
         fa = None
         dom = None
         dead = None
+        p2 = None
         groups = {}
         for n, X, m in sites:
             w = fn.block_of(n)
@@ -118,7 +118,13 @@ def rng(prog, an=None, files=None, table=None):
                 continue
             base = None
             if root['k'] == 'DeclRefExpr' and copies.get(root.get('d')):
-                base = copies[root['d']]
+                # the store that reaches this use: the closest dominating one
+                if dom is None:
+                    dom = dominators(fn)
+                    dead = ps._error_dead(fn)
+                cands_ = [(len(dom[b_]), base_) for b_, base_ in copies[root['d']] if b_ in dom[w[0]]]
+                if cands_:
+                    base = max(cands_)[1]
             tt = ps._tag_tests(fn, n, root, base)
             if tt and all(t in tags and not tags[t] for t in tt):
                 stats['untainted_masks'] += 1
@@ -206,6 +212,30 @@ def rng(prog, an=None, files=None, table=None):
                     for x in walk(cn):
                         if x['k'] == 'CallExpr' and any(ps.value_keys(fn, a) & rk for a in call_args(x)):
                             checked = cn
+            if checked is None and anywhere is not None:
+                # path-dependent: do the tests form a cut between the function entry and the mask?
+                tests = set()
+                for c, bb in fn.blocks.items():
+                    cn_ = fn.nodes.get(bb.get('cond')) if 'cond' in bb else None
+                    if cn_ is not None and (ps.value_keys(fn, cn_) & rk) and any(s_ in dead for s_ in bb['s'] if s_ is not None):
+                        tests.add(c)
+                    elif cn_ is not None and any(s_ in dead for s_ in bb['s'] if s_ is not None):
+                        for x in walk(cn_):
+                            if x['k'] == 'CallExpr' and any(ps.value_keys(fn, a) & rk for a in call_args(x)):
+                                tests.add(c)
+                if p2 is None:
+                    p2 = ps.pass2_blocks(fn)
+                seen_ = set()
+                st_ = [fn.entry]
+                while st_:
+                    b_ = st_.pop()
+                    if b_ in seen_ or b_ in tests or b_ not in p2:
+                        continue
+                    seen_.add(b_)
+                    st_.extend(fn.succs(b_))
+                if w[0] in seen_:
+                    stats['uncut'] = stats.get('uncut', 0) + 1
+                    uncut.append('%s:%d %s %s' % (fn.file, n['l'], fn.q, construct))
             if checked is not None or anywhere is not None:
                 cn = checked or anywhere
                 obs.append(Ob('R-RNG', fn.file, n['l'], fn.q, construct, OBSERVATION,
